@@ -20,6 +20,14 @@ structure Leaves where
       of the underlying type expression for a named type rendered by the default encoders (`map[string]*string`: 3) -/
   depth : Nat := 0
 
+/-- a struct type that is decoded field by field by the generic decoder (no `DecodeMapstructure`); it may have a
+    hand-written *marshaller* that pre-processes the value and then renders the struct by its tags (`ServiceConfig.MarshalYAML`
+    clears `Name`): such a type is in scope for the values the pre-processing leaves alone (`Stable`, first conjunct) -/
+def preProcessed : List String := ["ServiceConfig"]
+
+def structOnly (env : Env) (n : String) : Bool :=
+  preProcessed.contains n && (customDecode n).isNone && !hasMethod env n "DecodeMapstructure"
+
 def plainB (env : Env) (fmt : Fmt) (lv : List String) : Nat → TyExpr → Bool
   | 0, _ => false
   | _ + 1, .prim p => p != "any"
@@ -29,17 +37,17 @@ def plainB (env : Env) (fmt : Fmt) (lv : List String) : Nat → TyExpr → Bool
   | f + 1, .map e => plainB env fmt lv f e
   | f + 1, .named n =>
     if lv.contains n then true else
-    noCustom env n &&
     match findStruct env.structs n with
     | some s =>
-      nodupB ((s.fields.filter rendered).map (·.goName))
+      (noCustom env n || structOnly env n)
+      && nodupB ((s.fields.filter rendered).map (·.goName))
       && nodupB ((s.fields.filter (keyed fmt)).map (keyOf fmt))
       && s.fields.all fun fd => !rendered fd ||
           (!fd.yamlSkip &&
             (if fd.yamlInline then isNull (zeroVal env f fd.ty) && (fmt == .yaml || skipOf fmt fd)
                 && !((s.fields.filter (keyed fmt)).map (keyOf fmt)).contains fd.yamlKey
              else !skipOf fmt fd && keyOf fmt fd == fd.yamlKey && plainB env fmt lv f fd.ty))
-    | none => match findNamed env.named n with
+    | none => noCustom env n && match findNamed env.named n with
       | some e => plainB env fmt lv f e
       | none => false
 
@@ -56,7 +64,10 @@ def Stable (env : Env) (fmt : Fmt) (L : Leaves) : Nat → TyExpr → Val → Pro
   | f + 1, .named n, v =>
     if L.names.contains n then L.depth ≤ f ∧ L.ok n v ∧ v ≠ .null else
     match findStruct env.structs n with
-    | some s => ∃ vals : FieldDesc → Val,
+    | some s =>
+      -- the type has no marshaller of its own, or its marshaller's pre-processing is the identity on this value
+      (custom fmt n v = none ∨ custom fmt n v = some (.inr (n, v))) ∧
+      ∃ vals : FieldDesc → Val,
         v = .map ((s.fields.filter rendered).map fun fd => (fd.goName, vals fd)) ∧
         ∀ fd ∈ s.fields, rendered fd = true →
           (fd.yamlInline = true → vals fd = .null) ∧
